@@ -23,6 +23,7 @@ from __future__ import annotations
 import ast
 import copy
 import logging
+import os
 import random
 import traceback
 import types
@@ -846,6 +847,8 @@ def run(ctx: Ctx) -> None:
                "CPython with the GIL: sequentially consistent memory")
     _REPORTED.clear()
     names = ctx.pick(["docker", "aws_glue"], list(ADAPTERS))
+    if os.environ.get("VERIF_C10_EXECUTORS"):     # developer switch: e.g. VERIF_C10_EXECUTORS=aws_batch,k8s
+        names = os.environ["VERIF_C10_EXECUTORS"].split(",")
     names = [nm for nm in names if nm in ADAPTERS]
     ads = {nm: ADAPTERS[nm]() for nm in names}
     ctx.note("executors", names)
@@ -873,7 +876,7 @@ def run(ctx: Ctx) -> None:
     live_ctl = []
     for v in variants:
         nm = f"as-built {v}: liveness control"
-        pool.submit(nm, M, model_cfg(2, v, 3, True, True, True, ["TypeOK", "AtMostOnce"], ("Live",)), workers=W, **kw)
+        pool.submit(nm, M, model_cfg(2, v, 3, True, True, True, ["TypeOK", "AtMostOnce"], ("Live",)), workers=1, **kw)
         live_ctl.append(nm)
     cexs = {}
     for nm, v, dn in cex_names:
